@@ -378,6 +378,9 @@ def refute_papi(unit, fn, repo, seed):
                 shared = O.x25519(k, b)
                 add("x25519.static_dh %s %s" % (_h(k), _h(b)), "%s %d" % (_h(shared), 0 if shared == bytes(32) else 1))
                 add("mont.mul_clamped %s %s" % (_h(b), _h(k)), _h(O.x25519(k, b)))
+                mine = O.x25519(k, (9).to_bytes(32, "little"))
+                add("x25519.ephemeral_dh %s %s" % (_h(k), _h(b)), "%s %d %s" % (_h(shared), 0 if shared == bytes(32) else 1, _h(mine)))
+                add("x25519.reusable_dh %s %s" % (_h(k), _h(b)), "%s %d %s 1" % (_h(shared), 0 if shared == bytes(32) else 1, _h(mine)))
             add("x25519.public %s" % _h(k), _h(O.x25519(k, (9).to_bytes(32, "little"))))
         for s in _scalars(rng, 4):
             if s < 2**255:
